@@ -60,7 +60,10 @@ theorem mm_runThunk (t : Thunk) (v : World) : MainMono v (runThunk t v) := by
   | discard c => exact fun h => h
   | mgrLost => exact (keep_connectionLost v).mainMono
   | stoppedD => exact mm_tInput _ _ _
-  | waiter i ok => exact fun h => h
+  | waiter i ok =>
+    obtain ⟨ws, rg, e⟩ := resolveWaiter_same i ok v
+    show MainMono v (resolveWaiter i ok v)
+    rw [e]; exact fun h => h
 
 theorem mm_runThunks (l : List Thunk) (v : World) : MainMono v (runThunks l v) := by
   induction l generalizing v with
@@ -81,6 +84,10 @@ theorem mm_replayVersions (u : World) : MainMono u (replayVersions u).1 := by
   split
   · exact (keep_mgrGotVersions _ _).mainMono
   · exact fun h => h
+
+theorem mm_connectAs (nm : Option String) (v : World) : MainMono v (connectAs nm v) := by
+  obtain ⟨ws, wn, q, mo, e, _⟩ := connectAs_same nm v
+  rw [e]; exact fun h => h
 
 theorem mm_step (v : World) (e : Ev) : MainMono v (step v e).1 := by
   have ofres : ∀ r : Res, (ofRes r).1 = r.1 := by
@@ -108,8 +115,23 @@ theorem mm_step (v : World) (e : Ev) : MainMono v (step v e).1 := by
   | connect =>
     simp only [step]
     split
-    · simp only [connect]; split <;> exact fun h => h
+    · exact mm_connectAs none v
     · exact fun h => h
+  | ep l name => simp only [step]; split <;> exact fun h => h
+  | econnect k =>
+    simp only [step]
+    split
+    · exact fun h => h
+    · split
+      · exact fun h => h
+      · exact mm_connectAs none v
+  | elisten k =>
+    simp only [step]
+    split
+    · exact fun h => h
+    · split
+      · exact mm_connectAs _ v
+      · exact fun h => h
   | term i => simp only [step, ofres]; exact mm_tInput _ _ _
   | turn =>
     simp only [step, turn]
